@@ -608,7 +608,7 @@ pub fn property() -> Property {
         subs: vec![
             Box::new(PropSub {
                 name: "C14/random",
-                quick: 240_000,
+                quick: 600_000,
                 thorough: 6_000_000,
                 shards_quick: 16,
                 shards_thorough: 16,
